@@ -50,7 +50,7 @@ def main():
                             shutil.copy(os.path.join(d, f), os.path.join(tgt, f))
             place()
             cmd = meta.get("demo_cmd", "")
-            cmd = cmd.replace(src, wt)
+            cmd = cmd.replace(src, wt).replace("WT/", wt + "/").replace("<worktree>", wt)
             import re as _re
             segs = [x.strip() for x in _re.split(r"&&|;", cmd)]
             gos = [x for x in segs if "go test" in x or "go run" in x]
